@@ -1,307 +1,248 @@
 /-
-Bridge between OPERATOR-level commutation of dict operators (`opAntiCount` of
-`Model/Lattices/Common.lean`: number of qubits on which two dicts carry anticommuting
-letters) and the binary symplectic form on the BSF rows the generic code assembles
-(`toBsf`, `stabRow`, `symp`).
+Operator-level commutation of a lattice model ⇒ the list-level clauses of C01.
 
-Core Lean only.  The list-level consequences for a `Lattice` (`CommPairL`, `ValidCodeL`)
-are in `Proofs/OpCommLattice.lean`.
+`Proofs/OpCommCore.lean` (core Lean) shows that the symplectic product of the BSF rows the
+generic code assembles from two dict operators is the parity of `opAntiCount`.  Here this is
+lifted to a whole `Lattice`: if the coordinate system is well formed (`Lattice.WF`) and the
+operators commute / pair at the dict level (`Lattice.CommPair`), then `stabilizer_matrix`,
+`logicals_x`, `logicals_z` are assembled without `KeyError`, the rows are well-formed binary
+BSF vectors and every clause of `CommPairL` holds; with the rank clause this is `ValidCodeL`.
 
-Contents
-* `Op.letter op q`          the letter the dict carries on `q` (`I` if `q` is not a key);
-* `toBsf_eq_pauliToBsf`     `to_bsf` of a dict is `pauli_to_bsf` of the letters along the qubits;
-* `countP_letter`           counting along the qubit list = counting along the dict entries;
-* `symp_toBsf_eq_opAntiCount`  `symp` of two assembled rows is the parity of `opAntiCount`;
-* `opAntiCount_comm`        `opAntiCount` is symmetric on dicts.
+All-sizes lattice theorems therefore only have to establish `Lattice.WF`, `Lattice.CommPair`
+(statements about dicts and coordinates) and the rank.
 -/
-import PanqecVerif.Model.Lattices.Common
-import PanqecVerif.Proofs.Code2
-import PanqecVerif.Proofs.Deform
+import PanqecVerif.Proofs.OpCommCore
+import PanqecVerif.Proofs.CodeAlgebra
 
 namespace Panqec
 
-open Deform
+theorem mapM_eq_some_map_of_forall {α β} (f : α → Option β) (g : α → β) : ∀ l : List α,
+    (∀ x ∈ l, f x = some (g x)) → l.mapM f = some (l.map g)
+  | [], _ => rfl
+  | a :: l, h => by
+    rw [List.mapM_cons, h a (by simp),
+      mapM_eq_some_map_of_forall f g l (fun x hx => h x (by simp [hx]))]
+    rfl
 
-/-! ### single letters -/
+/-- a list of operators each of which is a dict supported on the qubits -/
+def DictsOn (qs : List Coord) (L : List Op) : Prop :=
+  ∀ a ∈ L, KeysNodup a ∧ opSupported qs a = true
 
-theorem Pauli.anti_I_right (p : Pauli) : Pauli.anti p Pauli.I = false := by cases p <;> rfl
-theorem Pauli.anti_I_left (p : Pauli) : Pauli.anti Pauli.I p = false := by cases p <;> rfl
-theorem Pauli.anti_comm (p q : Pauli) : Pauli.anti p q = Pauli.anti q p := by
-  cases p <;> cases q <;> rfl
+theorem wfRows_map_opRow (qs : List Coord) (L : List Op) :
+    WFRows qs.length (L.map (opRow qs)) := by
+  intro r hr
+  obtain ⟨op, _, rfl⟩ := List.mem_map.mp hr
+  exact ⟨opRow_length qs op, opRow_binary qs op⟩
 
-/-- the 0/1 anticommutation indicator of `Proofs/Deform.lean` is the Boolean `Pauli.anti` -/
-theorem acomm_eq_anti (p q : Pauli) : acomm p q = if Pauli.anti p q = true then 1 else 0 := by
-  cases p <;> cases q <;> rfl
+theorem mapM_toBsf_eq (qs : List Coord) (L : List Op) (hL : DictsOn qs L) :
+    L.mapM (toBsf qs) = some (L.map (opRow qs)) :=
+  mapM_eq_some_map_of_forall _ _ L (fun a ha => toBsf_eq_opRow qs a (hL a ha).1 (hL a ha).2)
 
-theorem Pauli.ite_xBit (p : Pauli) : (if p.xBit = 1 then 1 else 0) = p.xBit := by
-  cases p <;> rfl
-theorem Pauli.ite_zBit (p : Pauli) : (if p.zBit = 1 then 1 else 0) = p.zBit := by
-  cases p <;> rfl
+theorem mapM_stabRow_eq (qs : List Coord) (L : List Op) (hL : DictsOn qs L) :
+    L.mapM (stabRow qs) = some (L.map (opRow qs)) :=
+  mapM_eq_some_map_of_forall _ _ L (fun a ha => stabRow_eq_opRow qs a (hL a ha).1 (hL a ha).2)
 
-/-! ### the letter a dict carries on a qubit -/
+/-- rows of dict-level commuting operators have vanishing symplectic product -/
+theorem symp_rows_zero (qs : List Coord) (hnd : qs.Nodup) (A B : List Op) (hA : DictsOn qs A)
+    (h : ∀ a ∈ A, ∀ b ∈ B, opCommute a b = true) :
+    ∀ x ∈ A.map (opRow qs), ∀ y ∈ B.map (opRow qs), symp x y = 0 := by
+  intro x hx y hy
+  obtain ⟨a, ha, rfl⟩ := List.mem_map.mp hx
+  obtain ⟨b, hb, rfl⟩ := List.mem_map.mp hy
+  rw [symp_opRow qs hnd a b (hA a ha).1 (hA a ha).2]
+  exact (opCommute_iff a b).mp (h a ha b hb)
 
-/-- the letter of `op` on `q`: value of the first entry with key `q`, `I` if there is none -/
-def Op.letter (op : Op) (q : Coord) : Pauli := (Op.get? op q).getD Pauli.I
+theorem getD_map_opRow (qs : List Coord) (L : List Op) (i : Nat) (hi : i < L.length) :
+    (L.map (opRow qs)).getD i [] = opRow qs (L.getD i []) := by
+  simp [List.getD_eq_getElem?_getD, hi]
 
-theorem Op.letter_nil (q : Coord) : Op.letter [] q = Pauli.I := rfl
+theorem getD_mem' {α} (L : List α) (d : α) (i : Nat) (hi : i < L.length) : L.getD i d ∈ L := by
+  rw [getD_eq_getElem' L d hi]
+  exact List.getElem_mem hi
 
-theorem Op.letter_cons (k : Coord) (p : Pauli) (op : Op) (q : Coord) :
-    Op.letter ((k, p) :: op) q = if k = q then p else Op.letter op q := by
-  unfold Op.letter Op.get?
-  rw [List.find?_cons]
-  by_cases h : k = q
-  · simp [h]
-  · have hb : (k == q) = false := by simp [h]
-    simp only [hb, if_neg h]
+namespace Lattice
 
-theorem Op.letter_of_not_key : ∀ (op : Op) (q : Coord), (∀ e ∈ op, e.1 ≠ q) →
-    Op.letter op q = Pauli.I
-  | [], _, _ => rfl
-  | (k, p) :: op, q, h => by
-    rw [Op.letter_cons, if_neg (h (k, p) (by simp))]
-    exact Op.letter_of_not_key op q (fun e he => h e (by simp [he]))
+variable (l : Lattice)
 
-theorem Op.letter_of_mem : ∀ (op : Op), KeysNodup op → ∀ (q : Coord) (p : Pauli),
-    (q, p) ∈ op → Op.letter op q = p
-  | [], _, _, _, hm => by simp at hm
-  | (k, p') :: op, hk, q, p, hm => by
-    rw [keysNodup_cons] at hk
-    rw [Op.letter_cons]
-    rw [List.mem_cons] at hm
-    rcases hm with hm | hm
-    · cases hm; simp
-    · have hne : ¬ k = q := fun heq => hk.1 (q, p) hm heq.symm
-      rw [if_neg hne]
-      exact Op.letter_of_mem op hk.2 q p hm
+/-- the parity-check matrix the generic code assembles for the lattice -/
+def rowsH : List (List Nat) := (l.stabs.map l.getStab).map (opRow l.qubits)
+/-- the logical-operator stacks the generic code assembles for the lattice -/
+def rowsX : List (List Nat) := l.logX.map (opRow l.qubits)
+def rowsZ : List (List Nat) := l.logZ.map (opRow l.qubits)
 
-/-- a coordinate is a key of the dict or it is not -/
-theorem Op.key_cases (op : Op) (q : Coord) : (∃ p, (q, p) ∈ op) ∨ (∀ e ∈ op, e.1 ≠ q) := by
-  by_cases h : ∃ p, (q, p) ∈ op
-  · exact Or.inl h
-  · refine Or.inr (fun e he heq => h ⟨e.2, ?_⟩)
-    subst heq
-    exact he
+variable {l}
 
-/-- for a dict the `+= 1` count at a qubit is the bit of the letter stored there -/
-theorem opCount_eq_letter (op : Op) (hk : KeysNodup op) (q : Coord) (f : Pauli → Nat)
-    (hf : f Pauli.I ≠ 1) :
-    opCount op q f = if f (Op.letter op q) = 1 then 1 else 0 := by
-  rcases Op.key_cases op q with ⟨p, hm⟩ | hno
-  · rw [Op.letter_of_mem op hk q p hm]
-    exact opCount_of_mem op hk q p f hm
-  · rw [Op.letter_of_not_key op q hno, if_neg hf]
-    exact opCount_eq_zero op q f (fun e he hh => hno e he hh.1)
-
-/-! ### 1. `to_bsf` of a dict is `pauli_to_bsf` of its letters along the qubit list -/
-
-/-- the Pauli string of a dict operator along the qubit list -/
-def opString (qs : List Coord) (op : Op) : List Pauli := qs.map (Op.letter op)
-
-/-- the BSF row of a dict operator along the qubit list -/
-def opRow (qs : List Coord) (op : Op) : List Nat := pauliToBsf (opString qs op)
-
-theorem opRow_length (qs : List Coord) (op : Op) : (opRow qs op).length = 2 * qs.length := by
-  unfold opRow opString
-  rw [pauliToBsf_length, List.length_map]
-
-theorem opRow_binary (qs : List Coord) (op : Op) : ∀ x ∈ opRow qs op, x < 2 := by
-  intro x hx
-  unfold opRow pauliToBsf at hx
-  rw [List.mem_append, List.mem_map, List.mem_map] at hx
-  rcases hx with ⟨p, _, rfl⟩ | ⟨p, _, rfl⟩
-  · exact xBit_lt_two p
-  · exact zBit_lt_two p
-
-theorem toBsf_eq_opRow (qs : List Coord) (op : Op) (hk : KeysNodup op)
-    (hs : opSupported qs op = true) : toBsf qs op = some (opRow qs op) := by
-  rw [toBsf_eq_some]
-  refine ⟨hs, ?_⟩
-  unfold opRow opString pauliToBsf
-  rw [List.map_map, List.map_map]
-  congr 1
-  · apply List.map_congr_left
-    intro q _
-    show Pauli.xBit (Op.letter op q) = opCount op q Pauli.xBit
-    rw [opCount_eq_letter op hk q _ (by decide), Pauli.ite_xBit]
-  · apply List.map_congr_left
-    intro q _
-    show Pauli.zBit (Op.letter op q) = opCount op q Pauli.zBit
-    rw [opCount_eq_letter op hk q _ (by decide), Pauli.ite_zBit]
-
-/-- **Theorem 1.** `to_bsf` of a dict supported on the qubits is `pauli_to_bsf` of the
-    string of letters read along the qubit list (identity where the dict has no entry). -/
-theorem toBsf_eq_pauliToBsf (qs : List Coord) (op : Op) (_hnd : qs.Nodup) (hk : KeysNodup op)
-    (hs : opSupported qs op = true) :
-    toBsf qs op = some (pauliToBsf (qs.map fun q => (Op.get? op q).getD Pauli.I)) :=
-  toBsf_eq_opRow qs op hk hs
-
-/-- the assembled parity-check row of a dict is the same vector (`%= 2` changes nothing) -/
-theorem stabRow_eq_opRow (qs : List Coord) (op : Op) (hk : KeysNodup op)
-    (hs : opSupported qs op = true) : stabRow qs op = some (opRow qs op) := by
-  rw [stabRow_eq_toBsf qs op hk, toBsf_eq_opRow qs op hk hs]
-
-/-! ### 2. counting along the qubits = counting along the entries -/
-
-theorem opAntiCount_eq_countP (a b : Op) :
-    opAntiCount a b = a.countP (fun e => Pauli.anti e.2 (Op.letter b e.1)) := by
-  unfold opAntiCount
-  rw [List.countP_eq_length_filter]
-  congr 1
-  apply List.filter_congr
-  intro e _
-  unfold Op.letter
-  cases Op.get? b e.1 with
-  | none => simp [Pauli.anti_I_right]
-  | some p => rfl
-
-theorem acommCount_map (f g : Coord → Pauli) : ∀ qs : List Coord,
-    acommCount (qs.map f) (qs.map g) = qs.countP (fun q => Pauli.anti (f q) (g q))
-  | [] => rfl
-  | q :: qs => by
-    simp only [List.map_cons, acommCount, List.countP_cons, acomm_eq_anti,
-      acommCount_map f g qs]
-    omega
-
-/-- two predicates that agree away from one element `k` of a duplicate-free list: the
-    counts differ by the values at `k` -/
-theorem countP_split (k : Coord) (P Q : Coord → Bool) : ∀ qs : List Coord, qs.Nodup → k ∈ qs →
-    (∀ q ∈ qs, q ≠ k → P q = Q q) →
-    qs.countP P + (if Q k = true then 1 else 0) = qs.countP Q + (if P k = true then 1 else 0)
-  | [], _, hm, _ => by simp at hm
-  | q :: qs, hnd, hm, hPQ => by
-    rw [List.nodup_cons] at hnd
-    rw [List.countP_cons, List.countP_cons]
-    by_cases hq : q = k
-    · subst hq
-      have hc : qs.countP P = qs.countP Q := by
-        apply List.countP_congr
-        intro x hx
-        have hne : x ≠ q := fun h => hnd.1 (h ▸ hx)
-        rw [hPQ x (by simp [hx]) hne]
-      omega
-    · have hk : k ∈ qs := by
-        rcases List.mem_cons.mp hm with h | h
-        · exact absurd h.symm hq
-        · exact h
-      have ih := countP_split k P Q qs hnd.2 hk (fun x hx => hPQ x (by simp [hx]))
-      have := hPQ q (by simp) hq
-      rw [this]
-      omega
-
-/-- For a dict `a` whose keys are distinct and lie in the duplicate-free qubit list, a
-    count over the qubits of a predicate of the letter (false at `I`) is the count over
-    the entries of the dict. -/
-theorem countP_letter (g : Coord → Pauli → Bool) (hg : ∀ q, g q Pauli.I = false)
-    (qs : List Coord) (hnd : qs.Nodup) : ∀ a : Op, KeysNodup a → (∀ e ∈ a, e.1 ∈ qs) →
-    qs.countP (fun q => g q (Op.letter a q)) = a.countP (fun e => g e.1 e.2)
-  | [], _, _ => by
-    simp [Op.letter_nil, hg]
-  | (k, p) :: a, hk, hs => by
-    rw [keysNodup_cons] at hk
-    have ih := countP_letter g hg qs hnd a hk.2 (fun e he => hs e (by simp [he]))
-    have hI : Op.letter a k = Pauli.I := Op.letter_of_not_key a k (fun e he => hk.1 e he)
-    have hsplit := countP_split k (fun q => g q (Op.letter ((k, p) :: a) q))
-      (fun q => g q (Op.letter a q)) qs hnd (hs (k, p) (by simp)) (by
-        intro q _ hne
-        simp only [Op.letter_cons]
-        rw [if_neg (fun h => hne h.symm)])
-    have hk' : Op.letter ((k, p) :: a) k = p := by rw [Op.letter_cons, if_pos rfl]
-    simp only [hI, hg, hk', Bool.false_eq_true, if_false, Nat.add_zero] at hsplit
-    rw [List.countP_cons, ← ih]
-    exact hsplit
-
-/-- the number of qubits (along the qubit list) on which `a` and `b` carry anticommuting
-    letters is `opAntiCount a b` (counted along the entries of `a`) -/
-theorem countP_anti_eq_opAntiCount (qs : List Coord) (hnd : qs.Nodup) (a b : Op)
-    (ha : KeysNodup a) (hsa : opSupported qs a = true) :
-    qs.countP (fun q => Pauli.anti (Op.letter a q) (Op.letter b q)) = opAntiCount a b := by
-  rw [opAntiCount_eq_countP]
-  exact countP_letter (fun q p => Pauli.anti p (Op.letter b q)) (fun _ => Pauli.anti_I_left _)
-    qs hnd a ha (fun e he => opSupported_mem qs a hsa e.1 e.2 he)
-
-/-- `symp` of the rows of two operators is the parity of `opAntiCount`
-    (only the first operator has to be a dict supported on the qubits) -/
-theorem symp_opRow (qs : List Coord) (hnd : qs.Nodup) (a b : Op) (ha : KeysNodup a)
-    (hsa : opSupported qs a = true) :
-    symp (opRow qs a) (opRow qs b) = opAntiCount a b % 2 := by
-  unfold opRow opString
-  rw [symp_pauliToBsf, acommCount_map, countP_anti_eq_opAntiCount qs hnd a b ha hsa]
-
-/-- **Theorem 2.** The symplectic product of the assembled BSF vectors of two dict
-    operators is the parity of the number of qubits on which they carry anticommuting
-    letters. -/
-theorem symp_toBsf_eq_opAntiCount (qs : List Coord) (a b : Op) (va vb : List Nat)
-    (hnd : qs.Nodup) (ha : KeysNodup a) (hb : KeysNodup b)
-    (hsa : opSupported qs a = true) (hsb : opSupported qs b = true)
-    (hva : toBsf qs a = some va) (hvb : toBsf qs b = some vb) :
-    symp va vb = opAntiCount a b % 2 := by
-  rw [toBsf_eq_opRow qs a ha hsa] at hva
-  rw [toBsf_eq_opRow qs b hb hsb] at hvb
-  cases hva
-  cases hvb
-  exact symp_opRow qs hnd a b ha hsa
-
-/-! ### 3. symmetry of `opAntiCount` -/
-
-/-- a duplicate-free list containing the keys of both dicts -/
-def unionKeys (a b : Op) : List Coord :=
-  a.map Prod.fst ++ (b.map Prod.fst).filter (fun q => !(a.map Prod.fst).contains q)
-
-theorem unionKeys_nodup (a b : Op) (ha : KeysNodup a) (hb : KeysNodup b) :
-    (unionKeys a b).Nodup := by
-  unfold unionKeys
-  rw [List.nodup_append]
-  refine ⟨ha, List.Nodup.sublist List.filter_sublist hb, ?_⟩
-  intro x hx y hy hxy
-  subst hxy
-  rw [List.mem_filter] at hy
-  have := hy.2
-  simp only [Bool.not_eq_true', List.contains_eq_mem, decide_eq_false_iff_not] at this
-  exact this hx
-
-theorem unionKeys_left (a b : Op) : opSupported (unionKeys a b) a = true := by
+theorem WF.opSupported_of {op : Op} {qs : List Coord} (h : ∀ e ∈ op, e.1 ∈ qs ∧ e.2 ≠ Pauli.I) :
+    opSupported qs op = true := by
   unfold opSupported
   rw [List.all_eq_true]
   intro e he
   rw [List.contains_iff_mem]
-  unfold unionKeys
-  exact List.mem_append_left _ (List.mem_map.mpr ⟨e, he, rfl⟩)
+  exact (h e he).1
 
-theorem unionKeys_right (a b : Op) : opSupported (unionKeys a b) b = true := by
-  unfold opSupported
-  rw [List.all_eq_true]
-  intro e he
-  rw [List.contains_iff_mem]
-  unfold unionKeys
-  by_cases h : e.1 ∈ a.map Prod.fst
-  · exact List.mem_append_left _ h
-  · apply List.mem_append_right
-    rw [List.mem_filter]
-    exact ⟨List.mem_map.mpr ⟨e, he, rfl⟩, by simpa using h⟩
+theorem WF.stabs_dicts (hwf : l.WF) : DictsOn l.qubits (l.stabs.map l.getStab) := by
+  intro a ha
+  obtain ⟨s, hs, rfl⟩ := List.mem_map.mp ha
+  exact ⟨hwf.stab_keys s hs, WF.opSupported_of (hwf.stab_supported s hs)⟩
 
-/-- `opAntiCount` is symmetric on dicts: both sides count the qubits carrying
-    anticommuting letters -/
-theorem opAntiCount_comm (a b : Op) (ha : KeysNodup a) (hb : KeysNodup b) :
-    opAntiCount a b = opAntiCount b a := by
-  have hnd := unionKeys_nodup a b ha hb
-  rw [← countP_anti_eq_opAntiCount (unionKeys a b) hnd a b ha (unionKeys_left a b),
-    ← countP_anti_eq_opAntiCount (unionKeys a b) hnd b a hb (unionKeys_right a b)]
-  apply List.countP_congr
-  intro q _
-  rw [Pauli.anti_comm]
+theorem WF.logX_dicts (hwf : l.WF) : DictsOn l.qubits l.logX := fun a ha =>
+  ⟨hwf.log_keys a (List.mem_append_left _ ha),
+    WF.opSupported_of (hwf.log_supported a (List.mem_append_left _ ha))⟩
 
-/-- **Theorem 3.** -/
-theorem opAntiCount_comm_mod2 {a b : Op} (ha : KeysNodup a) (hb : KeysNodup b) :
-    opAntiCount a b % 2 = opAntiCount b a % 2 := by
-  rw [opAntiCount_comm a b ha hb]
+theorem WF.logZ_dicts (hwf : l.WF) : DictsOn l.qubits l.logZ := fun a ha =>
+  ⟨hwf.log_keys a (List.mem_append_right _ ha),
+    WF.opSupported_of (hwf.log_supported a (List.mem_append_right _ ha))⟩
 
-theorem opCommute_comm {a b : Op} (ha : KeysNodup a) (hb : KeysNodup b) :
-    opCommute a b = opCommute b a := by
-  unfold opCommute
-  rw [opAntiCount_comm a b ha hb]
+/-- `stabilizer_matrix` is assembled without `KeyError` -/
+theorem stabilizerMatrix_eq (hwf : l.WF) : stabilizerMatrix l.toCodeData = some l.rowsH :=
+  mapM_stabRow_eq l.qubits _ hwf.stabs_dicts
 
-theorem opCommute_iff (a b : Op) : opCommute a b = true ↔ opAntiCount a b % 2 = 0 := by
-  unfold opCommute
-  simp
+theorem logicalsX_eq (hwf : l.WF) : logicalsX l.toCodeData = some l.rowsX :=
+  mapM_toBsf_eq l.qubits _ hwf.logX_dicts
+
+theorem logicalsZ_eq (hwf : l.WF) : logicalsZ l.toCodeData = some l.rowsZ :=
+  mapM_toBsf_eq l.qubits _ hwf.logZ_dicts
+
+/-- every clause of `CommPairL` for the assembled matrices -/
+theorem commPairL_rows (hwf : l.WF) (hc : l.CommPair) :
+    CommPairL l.qubits.length l.logX.length l.rowsH l.rowsX l.rowsZ where
+  wfH := wfRows_map_opRow _ _
+  wfX := wfRows_map_opRow _ _
+  wfZ := wfRows_map_opRow _ _
+  kX := by simp [rowsX]
+  kZ := by simp [rowsZ, hc.same_k]
+  stab_comm := symp_rows_zero l.qubits hwf.qubits_nodup _ _ hwf.stabs_dicts (by
+    intro a ha b hb
+    obtain ⟨s, hs, rfl⟩ := List.mem_map.mp ha
+    obtain ⟨t, ht, rfl⟩ := List.mem_map.mp hb
+    exact hc.stab_comm s hs t ht)
+  logX_comm := symp_rows_zero l.qubits hwf.qubits_nodup _ _ hwf.logX_dicts (by
+    intro a ha b hb
+    obtain ⟨t, ht, rfl⟩ := List.mem_map.mp hb
+    exact hc.logX_comm a ha t ht)
+  logZ_comm := symp_rows_zero l.qubits hwf.qubits_nodup _ _ hwf.logZ_dicts (by
+    intro a ha b hb
+    obtain ⟨t, ht, rfl⟩ := List.mem_map.mp hb
+    exact hc.logZ_comm a ha t ht)
+  pairing := by
+    intro i j hi hj
+    have hj' : j < l.logZ.length := hc.same_k ▸ hj
+    have hm := hwf.logX_dicts _ (getD_mem' l.logX [] i hi)
+    unfold rowsX rowsZ
+    rw [getD_map_opRow _ _ i hi, getD_map_opRow _ _ j hj',
+      symp_opRow l.qubits hwf.qubits_nodup _ _ hm.1 hm.2]
+    exact hc.pairing i j hi hj'
+  logXX := symp_rows_zero l.qubits hwf.qubits_nodup _ _ hwf.logX_dicts hc.logXX
+  logZZ := symp_rows_zero l.qubits hwf.qubits_nodup _ _ hwf.logZ_dicts hc.logZZ
+
+end Lattice
+
+/-- **Main theorem.**  For a lattice with a well-formed coordinate system whose operators
+    commute and pair at the dict level, the three matrices are assembled (no `KeyError`),
+    are well-formed binary stacks of length `2n`, and satisfy every commutation and pairing
+    clause of C01 (`CommPairL`; `k ≤ n` and the rank bound `rank H ≤ n - k` then follow, see
+    `CommPairL.k_le`, `hasRank_le_of_commute_pairing`). -/
+theorem commPairL_of_lattice (l : Lattice) (hwf : l.WF) (hc : l.CommPair) :
+    ∃ H Lx Lz, stabilizerMatrix l.toCodeData = some H ∧ logicalsX l.toCodeData = some Lx ∧
+      logicalsZ l.toCodeData = some Lz ∧ CommPairL l.qubits.length l.logX.length H Lx Lz :=
+  ⟨l.rowsH, l.rowsX, l.rowsZ, Lattice.stabilizerMatrix_eq hwf, Lattice.logicalsX_eq hwf,
+    Lattice.logicalsZ_eq hwf, Lattice.commPairL_rows hwf hc⟩
+
+/-- the same for whatever matrices the assembly returned -/
+theorem commPairL_of_lattice_assembled (l : Lattice) (hwf : l.WF) (hc : l.CommPair)
+    {H Lx Lz : List (List Nat)} (hH : stabilizerMatrix l.toCodeData = some H)
+    (hX : logicalsX l.toCodeData = some Lx) (hZ : logicalsZ l.toCodeData = some Lz) :
+    CommPairL l.qubits.length l.logX.length H Lx Lz := by
+  rw [Lattice.stabilizerMatrix_eq hwf] at hH
+  rw [Lattice.logicalsX_eq hwf] at hX
+  rw [Lattice.logicalsZ_eq hwf] at hZ
+  cases hH; cases hX; cases hZ
+  exact Lattice.commPairL_rows hwf hc
+
+/-- **Corollary.**  With the rank clause the assembled matrices form a valid
+    `[[n, k]]` stabilizer code. -/
+theorem validCodeL_of_lattice (l : Lattice) (hwf : l.WF) (hc : l.CommPair)
+    {H Lx Lz : List (List Nat)} (hH : stabilizerMatrix l.toCodeData = some H)
+    (hX : logicalsX l.toCodeData = some Lx) (hZ : logicalsZ l.toCodeData = some Lz)
+    (hr : HasRank (2 * l.qubits.length) H (l.qubits.length - l.logX.length)) :
+    ValidCodeL l.qubits.length l.logX.length H Lx Lz :=
+  (commPairL_of_lattice_assembled l hwf hc hH hX hZ).toValid hr
+
+/-- existential form of the corollary (rank hypothesis on the assembled matrix) -/
+theorem validCodeL_of_lattice_exists (l : Lattice) (hwf : l.WF) (hc : l.CommPair)
+    (hr : HasRank (2 * l.qubits.length) l.rowsH (l.qubits.length - l.logX.length)) :
+    ∃ H Lx Lz, stabilizerMatrix l.toCodeData = some H ∧ logicalsX l.toCodeData = some Lx ∧
+      logicalsZ l.toCodeData = some Lz ∧ ValidCodeL l.qubits.length l.logX.length H Lx Lz :=
+  ⟨l.rowsH, l.rowsX, l.rowsZ, Lattice.stabilizerMatrix_eq hwf, Lattice.logicalsX_eq hwf,
+    Lattice.logicalsZ_eq hwf, (Lattice.commPairL_rows hwf hc).toValid hr⟩
+
+/-! ### non-vacuity: the `[[4,2,2]]` code as a hand-written lattice
+
+Qubits on the corners of a square, one X-type and one Z-type stabilizer (both on all four
+qubits) at two further coordinates; `X̄₁ = X(0,0)X(0,1)`, `X̄₂ = X(0,0)X(1,0)`,
+`Z̄₁ = Z(0,0)Z(1,0)`, `Z̄₂ = Z(0,0)Z(0,1)`. -/
+
+namespace Example422
+
+def lat : Lattice where
+  qubits := [[0, 0], [0, 1], [1, 0], [1, 1]]
+  stabs := [[2, 0], [2, 1]]
+  getStab := fun s =>
+    if s = [2, 0] then [([0, 0], .X), ([0, 1], .X), ([1, 0], .X), ([1, 1], .X)]
+    else [([1, 1], .Z), ([1, 0], .Z), ([0, 1], .Z), ([0, 0], .Z)]
+  logX := [[([0, 0], .X), ([0, 1], .X)], [([1, 0], .X), ([0, 0], .X)]]
+  logZ := [[([1, 0], .Z), ([0, 0], .Z)], [([0, 0], .Z), ([0, 1], .Z)]]
+
+theorem lat_wf : lat.WF where
+  qubits_nodup := by decide
+  stabs_nodup := by decide
+  disjoint := by decide
+  stab_keys := by decide
+  stab_supported := by decide
+  stab_nonempty := by decide
+  log_keys := by decide
+  log_supported := by decide
+
+theorem lat_commPair : lat.CommPair where
+  stab_comm := by decide
+  logX_comm := by decide
+  logZ_comm := by decide
+  same_k := rfl
+  pairing := by
+    intro i j hi hj
+    have hi' : i = 0 ∨ i = 1 := by simp [lat] at hi; omega
+    have hj' : j = 0 ∨ j = 1 := by simp [lat] at hj; omega
+    rcases hi' with rfl | rfl <;> rcases hj' with rfl | rfl <;> decide
+  logXX := by decide
+  logZZ := by decide
+
+/-- the assembled matrices (dict entries in any order land in the qubit order) -/
+example : stabilizerMatrix lat.toCodeData = some [[1,1,1,1, 0,0,0,0], [0,0,0,0, 1,1,1,1]] ∧
+    logicalsX lat.toCodeData = some [[1,1,0,0, 0,0,0,0], [1,0,1,0, 0,0,0,0]] ∧
+    logicalsZ lat.toCodeData = some [[0,0,0,0, 1,0,1,0], [0,0,0,0, 1,1,0,0]] := by decide
+
+/-- the bridge on one pair: one anticommuting qubit, symplectic product 1 -/
+example : opAntiCount (lat.logX.getD 0 []) (lat.logZ.getD 0 []) = 1 ∧
+    symp (lat.rowsX.getD 0 []) (lat.rowsZ.getD 0 []) = 1 := by decide
+
+theorem lat_rows_indep : Indep (2 * 4) lat.rowsH := by
+  intro sel hl
+  have hH : lat.rowsH = [[1,1,1,1, 0,0,0,0], [0,0,0,0, 1,1,1,1]] := by decide
+  rw [hH] at hl ⊢
+  match sel, hl with
+  | [a, b], _ => revert a b; decide
+
+/-- the hypotheses of the main theorem and of the corollary are satisfiable (k = 2) -/
+example : ∃ H Lx Lz, stabilizerMatrix lat.toCodeData = some H ∧
+    logicalsX lat.toCodeData = some Lx ∧ logicalsZ lat.toCodeData = some Lz ∧
+    ValidCodeL 4 2 H Lx Lz :=
+  validCodeL_of_lattice_exists lat lat_wf lat_commPair
+    (hasRank_of_indep (wfRows_map_opRow _ _) lat_rows_indep)
+
+/-- a lattice whose generators anticommute does not satisfy `CommPair` (the hypothesis is
+    not vacuous): X on one qubit against Z on the same qubit -/
+example : opCommute [([0, 0], .X)] [([0, 0], .Z)] = false := by decide
+
+end Example422
 
 end Panqec
